@@ -23,6 +23,8 @@ pub trait World: Sized {
     fn obs_state(&self) -> u64;
     fn default_op(&self) -> Op;
     fn finish(self) -> VResult<()>;
+    /// Drop the world without the global leak checks (another world is still alive).
+    fn discard(self) -> bool;
     fn present(&self) -> Vec<u32>;
     fn capacity(&self) -> usize;
 }
@@ -73,6 +75,8 @@ pub struct Outcome {
     pub chunk_digests: Vec<u64>,
     pub digest: u64,
     pub wall_s: f64,
+    /// histories of the growth-path states and of the states directly after a deviation
+    pub family: Vec<Vec<Op>>,
 }
 
 pub struct Limits {
@@ -129,6 +133,8 @@ struct Explorer<'a, W: World> {
     chunk: H128,
     chunk_n: u64,
     trace: Option<(u64, std::fs::File)>,
+    family: Vec<u32>,
+    pub collect_family: bool,
     _w: std::marker::PhantomData<W>,
 }
 
@@ -170,6 +176,8 @@ impl<'a, W: World> Explorer<'a, W> {
             chunk: H128::new(),
             chunk_n: 0,
             trace: trace.and_then(|(c, p)| std::fs::File::create(p).ok().map(|f| (c, f))),
+            family: vec![],
+            collect_family: false,
             _w: std::marker::PhantomData,
         }
     }
@@ -341,11 +349,13 @@ pub struct E1Params {
     pub d: usize,
     /// layers < concrete_layers use every concrete key
     pub concrete_layers: usize,
+    pub collect_family: bool,
 }
 
 /// E1: every history with at most `d` deviations spliced anywhere into the growth path up to `n`.
 pub fn run_e1<W: World>(cfg: &Cfg, p: &E1Params, alpha: &Alphabet, lim: &Limits, cur: Option<&str>, trace: Option<(u64, String)>) -> Outcome {
     let mut ex: Explorer<'_, W> = Explorer::new(cfg, lim, cur, trace);
+    ex.collect_family = p.collect_family;
     // layer 0: the default trajectory
     let mut frontier: Vec<u32> = vec![];
     {
@@ -395,6 +405,9 @@ pub fn run_e1<W: World>(cfg: &Cfg, p: &E1Params, alpha: &Alphabet, lim: &Limits,
             }
         }
         ex.out.samples.push(ex.hist(*frontier.last().unwrap_or(&0)));
+        if ex.collect_family {
+            ex.family.extend(frontier.iter().copied());
+        }
     }
     ex.out.layers.push((ex.out.states, ex.out.executions));
     'outer: for layer in 0..p.d {
@@ -431,6 +444,9 @@ pub fn run_e1<W: World>(cfg: &Cfg, p: &E1Params, alpha: &Alphabet, lim: &Limits,
                         }
                         Some(mut cur) => {
                             next.push(cur);
+                            if ex.collect_family {
+                                ex.family.push(cur);
+                            }
                             if ex.out.samples.len() < 6 + layer * 4 && (ex.out.states % 97 == 1) {
                                 let hh = ex.hist(cur);
                                 ex.out.samples.push(hh);
@@ -485,6 +501,8 @@ pub fn run_e1<W: World>(cfg: &Cfg, p: &E1Params, alpha: &Alphabet, lim: &Limits,
     ex.finish_transcript();
     ex.out.distinct_obs = ex.obs_seen.len() as u64;
     ex.out.wall_s = ex.t0.elapsed().as_secs_f64();
+    let fam = std::mem::take(&mut ex.family);
+    ex.out.family = fam.iter().map(|&n| ex.hist(n)).collect();
     ex.out
 }
 
@@ -600,4 +618,29 @@ pub fn replay_verbose<W: World>(cfg: &Cfg, hist: &[Op], quiet: bool) -> Result<(
         }
     }
     w.finish().map_err(|v| (hist.len(), v))
+}
+
+/// Per-step observation digests of a history (for the profile differential).
+pub fn transcript_of<W: World>(cfg: &Cfg, hist: &[Op]) -> String {
+    reset_exec();
+    let mut w = match W::create(cfg) {
+        Ok(w) => w,
+        Err(v) => return format!("create: {}", sig_of(&v.kind, &v.msg, None)),
+    };
+    let mut h = H128::new();
+    for (i, &o) in hist.iter().enumerate() {
+        match w.apply(o).and_then(|obs| w.audit(true).map(|_| obs)) {
+            Ok(obs) => {
+                h.u64(obs);
+                h.u64(w.obs_state());
+            }
+            Err(v) => {
+                std::mem::forget(w);
+                return format!("{:016x} then step {}: {}", h.finish64(), i, sig_of(&v.kind, &v.msg, None));
+            }
+        }
+    }
+    let r = format!("{:016x} len={} cap={}", h.finish64(), w.len(), w.capacity());
+    drop(w);
+    r
 }
